@@ -19,6 +19,7 @@ RULE = ("documents written by Python (json.dumps with random indentation/escapin
         "(text, empty and arbitrary binary files); unknown include types and missing files must fail. distinct = "
         "distinct (format, file bytes); non-trivial = a container document or a non-ASCII / binary file.")
 RULE += (" " + 'Also: byte-level corruption of every second document into invalid UTF-8 (stray, truncated, overlong and surrogate sequences, never at the first two bytes); files whose sizes sit around 256, 1024, 2048, 4096, 8192 and 65,536 bytes; documents with a long string and a long list next to the data.')
+RULE += (" " + 'Every fourth agreeing document and every third str / b64 file is also included from a built file (type checker on) and used as what it is (v + "!", v + 1, v && true, v + [1], v{zz = 1}); the same file is included under 2..5 types in one program, each compared with the include alone, and a malformed include after good ones must still fail.')
 
 I64 = (-(2 ** 63), 2 ** 63 - 1)
 
